@@ -7,6 +7,7 @@ import (
 	"encoding/json"
 	"flag"
 	"fmt"
+	"math/rand"
 	"reflect"
 	"sort"
 	"strings"
@@ -34,6 +35,7 @@ type PContact struct {
 	Status string   `json:"status"`
 	TZ     string   `json:"tz"`
 	URNs   []string `json:"urns"`
+	Tels   []string `json:"tels"` // paths of the tel URNs, in order
 	Groups []string `json:"groups"`
 	Fields []KV     `json:"fields"`
 	Ticket string   `json:"ticket"`
@@ -50,7 +52,9 @@ type PCEvent struct {
 	C    PContact `json:"c"`  // contact_refreshed
 }
 
-func emptyPContact() PContact { return PContact{URNs: []string{}, Groups: []string{}, Fields: []KV{}} }
+func emptyPContact() PContact {
+	return PContact{URNs: []string{}, Tels: []string{}, Groups: []string{}, Fields: []KV{}}
+}
 
 func canonTime(s string) string {
 	if s == "" {
@@ -74,14 +78,17 @@ func canonJSON(v any) string {
 func projContactJSON(data []byte) *PContact {
 	var m map[string]any
 	if err := json.Unmarshal(data, &m); err != nil || m == nil {
-		return &PContact{URNs: []string{}, Groups: []string{}, Fields: []KV{}}
+		return &PContact{URNs: []string{}, Tels: []string{}, Groups: []string{}, Fields: []KV{}}
 	}
 	str := func(k string) string { s, _ := m[k].(string); return s }
-	p := &PContact{Name: str("name"), Lang: str("language"), Status: str("status"), TZ: str("timezone"), URNs: []string{}, Groups: []string{}, Fields: []KV{}}
+	p := &PContact{Name: str("name"), Lang: str("language"), Status: str("status"), TZ: str("timezone"), URNs: []string{}, Tels: []string{}, Groups: []string{}, Fields: []KV{}}
 	p.Seen = canonTime(str("last_seen_on"))
 	if us, ok := m["urns"].([]any); ok {
 		for _, u := range us {
 			p.URNs = append(p.URNs, fmt.Sprint(u))
+			if us := fmt.Sprint(u); strings.HasPrefix(us, "tel:") {
+				p.Tels = append(p.Tels, strings.SplitN(strings.TrimPrefix(us, "tel:"), "?", 2)[0])
+			}
 		}
 	}
 	if gs, ok := m["groups"].([]any); ok {
@@ -108,7 +115,7 @@ func projContactJSON(data []byte) *PContact {
 
 func projContact(c *flows.Contact) *PContact {
 	if c == nil {
-		return &PContact{URNs: []string{}, Groups: []string{}, Fields: []KV{}}
+		return &PContact{URNs: []string{}, Tels: []string{}, Groups: []string{}, Fields: []KV{}}
 	}
 	return projContactJSON(jsonx.MustMarshal(c))
 }
@@ -190,8 +197,12 @@ var groupUUID = map[string]string{
 	"s1": "b7cf0d83-f1c9-411c-96fd-c511a4cfa86d", "s2": "1e1ce1e1-9288-4504-869e-022d1003c72a",
 	"qn": "0ec97956-c451-48a0-a180-1ce766623e31", "qf": "1e1ce1e1-9288-4504-869e-022d10030001", "qu": "1e1ce1e1-9288-4504-869e-022d10030002",
 	"ql": "1e1ce1e1-9288-4504-869e-022d10030003", "qt": "1e1ce1e1-9288-4504-869e-022d10030004", "qs": "1e1ce1e1-9288-4504-869e-022d10030005",
+	"qx": "1e1ce1e1-9288-4504-869e-022d10030006",
 }
-var groupQuery = map[string]string{"qn": `name = "bob"`, "qf": `f1 != ""`, "qu": `tel != ""`, "ql": `language = "fra"`, "qt": `tickets > 0`, "qs": `last_seen_on != ""`}
+var groupQuery = map[string]string{"qn": `name = "bob"`, "qf": `f1 != ""`, "qu": `tel != ""`, "ql": `language = "fra"`, "qt": `tickets > 0`, "qs": `last_seen_on != ""`, "qx": `tel != "+12065550002"`}
+
+// groups whose query the specification evaluates itself (ContactTrace!RefMatch) instead of trusting the real evaluator
+var groupRef = map[string][2]string{"qx": {"nottel", "+12065550002"}}
 var groupName = map[string]string{}
 
 func init() {
@@ -204,7 +215,7 @@ var urnByID = map[int]string{0: "xyz:abc", 1: "tel:+12065550001", 2: "tel:+12065
 
 func contactAssets(extra ...string) []byte {
 	gs := []M{}
-	for _, k := range append([]string{"s1", "s2", "qn", "qf", "qu", "ql", "qt"}, extra...) {
+	for _, k := range append([]string{"s1", "s2", "qn", "qf", "qu", "ql", "qt", "qx"}, extra...) {
 		g := M{"uuid": groupUUID[k], "name": k}
 		if q, ok := groupQuery[k]; ok {
 			g["query"] = q
@@ -469,6 +480,8 @@ type CLine struct {
 type QG struct {
 	UUID    string `json:"uuid"`
 	Matches bool   `json:"matches"` // contactql.EvaluateQuery on the after-contact (status not considered)
+	Ref     string `json:"ref"`     // "" or the kind of query the specification evaluates itself
+	Arg     string `json:"arg"`
 }
 
 func queryGroups(env envs.Environment, sa flows.SessionAssets, c *flows.Contact) []QG {
@@ -478,7 +491,11 @@ func queryGroups(env envs.Environment, sa flows.SessionAssets, c *flows.Contact)
 			// CheckQueryBasedMembership includes the status test; evaluate the bare query on an active clone
 			cl := c.Clone()
 			cl.SetStatus(flows.ContactStatusActive)
-			out = append(out, QG{UUID: string(g.UUID()), Matches: g.CheckQueryBasedMembership(env, cl)})
+			qg := QG{UUID: string(g.UUID()), Matches: g.CheckQueryBasedMembership(env, cl)}
+			if r, ok := groupRef[groupName[string(g.UUID())]]; ok && g.Query() == groupQuery[groupName[string(g.UUID())]] {
+				qg.Ref, qg.Arg = r[0], r[1]
+			}
+			out = append(out, qg)
 		}
 	}
 	sort.Slice(out, func(i, j int) bool { return out[i].UUID < out[j].UUID })
@@ -520,6 +537,9 @@ func c03Apply(args []string) error {
 	out := fs.String("out", "", "")
 	shard := fs.Int("shard", 0, "")
 	nshards := fs.Int("nshards", 1, "")
+	chains := fs.Int("chains", 0, "instead of single cases: this many random chains of modifiers drawn from the cases")
+	chainLen := fs.Int("chainlen", 4, "")
+	seed := fs.Int64("seed", 1, "")
 	fs.Parse(args)
 	lw, f, err := newLineWriter(*out)
 	if err != nil {
@@ -535,6 +555,62 @@ func c03Apply(args []string) error {
 	env := envs.NewBuilder().Build()
 	n, drift := 0, 0
 	var driftEx []string
+	if *chains > 0 {
+		// histories: a starting contact of one case, then the modifiers of other cases one after the other, each applied
+		// twice; every application is one line judged by the same predicates (what was announced reproduces the contact,
+		// membership is right afterwards, the second application does nothing)
+		var all []*c03Case
+		var texts []string
+		if err := forEachLine(*in, 0, 1, func(i int, data []byte) error {
+			texts = append(texts, string(data))
+			return nil
+		}); err != nil {
+			return err
+		}
+		sort.Strings(texts) // TLC writes the cases in no particular order; the chains must not depend on it
+		for _, t := range texts {
+			cs := &c03Case{}
+			if err := json.Unmarshal([]byte(t), cs); err != nil {
+				return err
+			}
+			all = append(all, cs)
+		}
+		rnd := rand.New(rand.NewSource(*seed*1000003 + int64(*shard)))
+		for j := 0; j < *chains / *nshards; j++ {
+			start := all[rnd.Intn(len(all))]
+			c, err := flows.ReadContact(sa, concreteContact(&start.Before), assets.IgnoreMissing)
+			if err != nil {
+				return err
+			}
+			src := fmt.Sprintf("chain/%d/%d/%d", *seed, *shard, j)
+			for k := 0; k < *chainLen; k++ {
+				mc := all[rnd.Intn(len(all))]
+				mod, err := modifiers.ReadModifier(sa, concreteMod(&mc.Mod), assets.IgnoreMissing)
+				if err != nil {
+					return err
+				}
+				n++
+				broke := false
+				for round := 0; round < 2; round++ {
+					before := projContact(c)
+					modified, evs, pan := applyOnce(eng, env, sa, c, mod)
+					line := &CLine{Src: fmt.Sprintf("%s/%d", src, k), Ev: "apply", Second: round == 1, Before: before, After: projContact(c), Events: evs, Modified: modified,
+						Mod: string(concreteMod(&mc.Mod)), Panic: pan, QGroups: queryGroups(env, sa, c)}
+					lw.write(line.Src, line, func(s string) { line.Src = s })
+					if pan != "" {
+						broke = true
+						break
+					}
+				}
+				if broke {
+					break
+				}
+			}
+		}
+		lw.w.Flush()
+		fmt.Println(string(mustJSON(M{"cases": n, "lines": lw.n, "drift": 0, "drift_examples": []string{}})))
+		return nil
+	}
 	err = forEachLine(*in, *shard, *nshards, func(i int, data []byte) error {
 		cs := &c03Case{}
 		if err := json.Unmarshal(data, cs); err != nil {
